@@ -114,21 +114,31 @@ impl C08 {
                 }
             }
         }
-        // the pool manager as delegate: a locked deposit into this position, by owner and by others
-        if pos.open {
-            let pool = s.post.pools.values().find(|p| p.info.lp_denom == lp).cloned();
-            if let Some(p) = pool {
-                for sender in senders.iter().take(4).chain([&owner]) {
-                    w.restore(&base);
-                    let funds: Vec<_> = p.info.assets.iter().map(|c| coin((c.amount.u128() / 1_000_000).max(10), c.denom.clone())).collect();
-                    let before = fobserve(w).positions.get(&pos.identifier).cloned();
-                    let out = w.apply(&provide_op(sender, &p.info.pool_identifier, funds, None, None, None, Some(pos.unlocking_duration), Some(pos.identifier.clone())));
-                    let after = fobserve(w).positions.get(&pos.identifier).cloned();
-                    let grew = before != after;
-                    if grew && *sender != owner {
-                        rep.failed("authz", None, format!("{} topped up {}'s position through a locked deposit", w.name_of(sender.as_str()), w.name_of(owner.as_str())), witness(json!({})));
-                    } else {
-                        rep.held("authz", hash_of(&("via_pm", *sender == owner, out.is_ok())), || json!({"action": "locked deposit into the position via the pool manager", "by_owner": *sender == owner, "result": out.short()}));
+        // the pool manager as delegate: a locked deposit naming this position - as stored and as a
+        // caller would type it (without the prefix the farm manager adds) - by its owner and by
+        // others, through the position's own pool or any other pool
+        {
+            let own_pool = s.post.pools.values().find(|p| p.info.lp_denom == lp && p.funded()).cloned();
+            let any_pool = s.post.pools.values().filter(|p| p.funded() && p.info.status.deposits_enabled).collect::<Vec<_>>().choose(&mut self.rng).map(|p| (*p).clone());
+            let bare = pos.identifier.trim_start_matches("u-").trim_start_matches("p-").to_string();
+            let mut names = vec![pos.identifier.clone()];
+            if bare != pos.identifier {
+                names.push(bare);
+            }
+            for p in own_pool.iter().chain(any_pool.iter()) {
+                for name in &names {
+                    for sender in senders.iter().take(4).chain([&owner]) {
+                        w.restore(&base);
+                        let funds: Vec<_> = p.info.assets.iter().map(|c| coin((c.amount.u128() / 1_000_000).max(10), c.denom.clone())).collect();
+                        let before = fobserve(w).positions.get(&pos.identifier).cloned();
+                        let out = w.apply(&provide_op(sender, &p.info.pool_identifier, funds, None, None, None, Some(pos.unlocking_duration), Some(name.clone())));
+                        let after = fobserve(w).positions.get(&pos.identifier).cloned();
+                        let changed = before != after;
+                        if changed && *sender != owner {
+                            rep.failed("authz", None, format!("{} changed {}'s position {} through a locked deposit naming '{name}'", w.name_of(sender.as_str()), w.name_of(owner.as_str()), pos.identifier), witness(json!({"before": before.map(|b| format!("{b}")), "after": after.map(|a| format!("{a}"))})));
+                        } else {
+                            rep.held("authz", hash_of(&("via_pm", *sender == owner, out.is_ok(), name == &pos.identifier, p.info.lp_denom == lp)), || json!({"action": "locked deposit naming the position via the pool manager", "named_as_stored": name == &pos.identifier, "own_pool": p.info.lp_denom == lp, "by_owner": *sender == owner, "result": out.short()}));
+                        }
                     }
                 }
             }
